@@ -27,18 +27,24 @@ GRIDS = {"small": (16, 16, 320.0, 320.0), "square": (32, 32, 400.0, 400.0), "obl
          # a low mast (2 m) in a domain several hundred measurement heights long, as needed to hold a stable-night footprint
          "low-mast": (96, 64, 1200.0, 800.0)}
 LOW = {"zm": 2.0, "nz": 16, "ustar": 0.25}
-ORIGINS = {"NE": (50.0, 10.0), "NW": (35.0, -105.0), "SE": (-33.0, 151.0), "SW": (-23.0, -46.0), "equator": (0.0, 37.0), "greenwich": (51.5, 0.0), "null-island": (0.0, 0.0)}
+ORIGINS = {"NE": (50.0, 10.0), "NW": (35.0, -105.0), "SE": (-33.0, 151.0), "SW": (-23.0, -46.0), "equator": (0.0, 37.0), "greenwich": (51.5, 0.0), "null-island": (0.0, 0.0),
+           "greenwich-west": (51.5, -0.002), "greenwich-east": (51.5, 0.0005), "dateline-west": (-17.0, 179.999), "dateline-east": (-17.0, -179.9995)}
+SPECIAL_ORIGINS = ("greenwich-west", "greenwich-east", "dateline-west", "dateline-east")
 TOL_DEG = 6.0
 
 
 def configs(tier):
     if tier == "quick":
         cyc = itertools.cycle([("MOST", -100.0, 4.0), ("MOSTM", 50.0, 2.0), ("CONSTANT", 1e9, 6.0), ("MOST", 1e9, 2.0), ("MOSTM", -100.0, 6.0)])
-        sel = [(g, o) + next(cyc) for g, o in itertools.product([g for g in GRIDS if g not in ("low-mast", "small")], ORIGINS)]
+        sel = [(g, o) + next(cyc) for g, o in itertools.product([g for g in GRIDS if g not in ("low-mast", "small")], [o for o in ORIGINS if o not in SPECIAL_ORIGINS])]
     else:
-        sel = list(itertools.product([g for g in GRIDS if g not in ("low-mast", "small")], ORIGINS, ("MOST", "MOSTM", "CONSTANT"), (-100.0, 1e9, 50.0), (2.0, 6.0)))
+        sel = list(itertools.product([g for g in GRIDS if g not in ("low-mast", "small")], [o for o in ORIGINS if o not in SPECIAL_ORIGINS], ("MOST", "MOSTM", "CONSTANT"), (-100.0, 1e9, 50.0), (2.0, 6.0)))
     for g, o, clo, L, ws in sel:
         yield {"grid": g, "origin": o, "closure": clo, "mol": L, "speed": ws}
+    # reference origins just WEST of the Greenwich meridian / of the antimeridian with the tower just east of it (longitudes of
+    # opposite sign), and the mirror cases
+    for k_, o_ in enumerate(("greenwich-west", "dateline-west", "greenwich-east", "dateline-east")):
+        yield {"grid": "square", "origin": o_, "closure": ("MOST", "MOSTM")[k_ % 2], "mol": (-100.0, 50.0)[k_ % 2], "speed": 4.0}
     # the literal statement (centre of mass of the WHOLE returned footprint) for the low mast, no halo configured
     for L, clo in itertools.product((-30.0, 1e9, 20.0), ("MOST",) if tier == "quick" else ("MOST", "MOSTM")):
         yield {"grid": "low-mast", "origin": "NE", "closure": clo, "mol": L, "speed": 3.5, "window": "whole-domain"}
@@ -50,6 +56,7 @@ def make_cfg(case, wd):
     nx, ny, xmax, ymax = GRIDS[case["grid"]]
     rlat, rlon = ORIGINS[case["origin"]]
     lat, lon = geo.place(rlat, rlon, xmax / 2, ymax / 2)
+    lon = (lon + 180.0) % 360.0 - 180.0  # longitudes as a GPS reports them: in [-180, 180)
     low = case["grid"] == "low-mast"
     return parse_config_dict({
         "domain": {"nx": nx, "ny": ny, "xmax": xmax, "ymax": ymax, "nz": LOW["nz"] if low else 8, "modes": [nx, ny], "ref_lat": rlat, "ref_lon": rlon},
